@@ -272,6 +272,10 @@ class FnTranslator:
                 return ('(%s ++ %s)%%string' % (a[0], b[0]), 'S')
             if isinstance(n.op, ast.Add) and a[1] == b[1] == 'LS':
                 return ('(%s ++ %s)%%list' % (a[0], b[0]), 'LS')
+            if isinstance(n.op, ast.Add) and a[1] == b[1] == 'LQ' and isinstance(n.right, ast.List):
+                # [loop ties C05] lst + [e] on a list of numbers (what `lst.append(e)` desugars to): concatenation.  Only
+                # with a list DISPLAY on the right: `+` of two numpy arrays is elementwise addition, not this
+                return ('(%s ++ %s)%%list' % (a[0], b[0]), 'LQ')
             if isinstance(n.op, (ast.BitAnd, ast.BitOr)):
                 if a[1] == 'B' and b[1] == 'B':
                     return ('(%s %s %s)' % ('andb' if isinstance(n.op, ast.BitAnd) else 'orb', a[0], b[0]), 'B')
@@ -417,6 +421,9 @@ class FnTranslator:
             items = [self.expr(e, env) for e in n.elts]
             if all(i[1] == 'S' for i in items):
                 return ('[%s]' % '; '.join(i[0] for i in items) if items else '(@nil string)', 'LS')
+            if items and all(i[1] in ('Q', 'Z') for i in items):
+                # [loop ties C05] a list display of numbers: the list of its values (LQ)
+                return ('[%s]' % '; '.join(self.toQ(i) for i in items), 'LQ')
             raise Refuse('%s: list display of non-strings' % self.rel)
         if isinstance(n, ast.IfExp):
             c = self.cond(n.test, env)
@@ -425,6 +432,31 @@ class FnTranslator:
                 a = (self.truthy(a), 'B')          # [loop ties C07/C14] an int stored into a boolean array: nonzero is True
             a, b, ty = self.unify(a, b)
             return ('(if %s then %s else %s)' % (c, a, b), ty)
+        if isinstance(n, ast.ListComp) and getattr(self, 'columns', None):
+            # [loop ties C05] spec key `columns=[M, ...]`: the named parameters (type LQ) are 2-d arrays (rows = samples,
+            # columns = bins) read as ONE COLUMN; a vector with one entry per column is read as that column's entry.
+            #   [E for a, i in zip(M.T, v)]   entry of this column: E with a = the column of M, i = this column's entry of v
+            # (zip pairs column j of M with v[j]; v has one entry per column of M by its type)
+            if len(n.generators) != 1 or n.generators[0].ifs or n.generators[0].is_async:
+                raise Refuse('%s: list comprehension with several generators / a condition' % self.rel)
+            g = n.generators[0]
+            it = g.iter
+            if not (isinstance(g.target, ast.Tuple) and len(g.target.elts) == 2 and all(isinstance(t, ast.Name) for t in g.target.elts)
+                    and isinstance(it, ast.Call) and isinstance(it.func, ast.Name) and it.func.id == 'zip' and not it.keywords
+                    and len(it.args) == 2 and isinstance(it.args[0], ast.Attribute) and it.args[0].attr == 'T'
+                    and isinstance(it.args[0].value, ast.Name) and it.args[0].value.id in self.columns):
+                raise Refuse('%s: list comprehension other than [E for a, i in zip(M.T, v)] over a declared column matrix' % self.rel)
+            col = self.expr(it.args[0].value, env)
+            v = self.expr(it.args[1], env)
+            if col[1] != 'LQ' or v[1] not in ('Q', 'Z'):
+                raise Refuse('%s: zip(M.T, v) on types %s / %s' % (self.rel, col[1], v[1]))
+            env2 = dict(env)
+            env2[g.target.elts[0].id] = col
+            env2[g.target.elts[1].id] = v
+            e = self.expr(n.elt, env2)
+            if e[1] not in ('Q', 'Z'):
+                raise Refuse('%s: list comprehension element of type %s' % (self.rel, e[1]))
+            return e
         if isinstance(n, ast.Call):
             return self.call(n, env)
         raise Refuse('%s: unsupported expression %s' % (self.rel, type(n).__name__))
@@ -522,6 +554,20 @@ class FnTranslator:
             vals = [self.coerce(self.expr(a, env), ty) for a, ty in zip(n.args, pos)]
             vals += [self.coerce(self.expr(given[kw], env), ty) for kw, ty in slots if kw is not None]
             return ('(%s %s)' % (env[fkey][0], ' '.join(vals)), rty)
+        if getattr(self, 'columns', None) and fkey in ('np.apply_along_axis', 'numpy.apply_along_axis') and not n.keywords \
+                and len(n.args) == 3:
+            # [loop ties C05] np.apply_along_axis(F, 0, M) on a declared column matrix M (see `columns`): entry j of the result
+            # is F(M[:, j]) -- this column's entry is F applied to the column
+            fn, ax, m = n.args
+            fk = ast.unparse(fn)
+            if not (isinstance(ax, ast.Constant) and ax.value == 0 and not isinstance(ax.value, bool)
+                    and isinstance(m, ast.Name) and m.id in self.columns and env.get(fk, ('', ''))[1] == 'F:LQ>Q'):
+                raise Refuse('%s: np.apply_along_axis other than (F, 0, M) with F : F:LQ>Q and M a declared column matrix' % self.rel)
+            return ('(%s %s)' % (env[fk][0], self.expr(m, env)[0]), 'Q')
+        if getattr(self, 'columns', None) and fkey in ('np.array', 'numpy.array', 'np.asarray', 'numpy.asarray') \
+                and not n.keywords and len(n.args) == 1 and isinstance(n.args[0], ast.ListComp):
+            # [loop ties C05] np.array([... per column ...]): the vector of the per-column entries, read as this column's entry
+            return self.expr(n.args[0], env)
         if isinstance(f, ast.Name) and f.id == 'yield_extend__' and not n.keywords:
             x = self.expr(n.args[0], env)
             if x[1] != 'Y':
@@ -1313,7 +1359,8 @@ class FnTranslator:
                     or (isinstance(node.ctx, ast.Load) and isinstance(parent, ast.Compare) and len(parent.ops) == 1
                         and isinstance(parent.ops[0], (ast.In, ast.NotIn)) and parent.comparators[0] is node) \
                     or (isinstance(node.ctx, ast.Load) and isinstance(parent, ast.Subscript) and parent.value is node
-                        and isinstance(parent.ctx, ast.Load))
+                        and isinstance(parent.ctx, ast.Load)) \
+                    or (isinstance(node.ctx, ast.Load) and isinstance(parent, ast.Return) and parent.value is node)
                 if not ok:
                     raise Refuse('%s: the dict %s is used other than by `in` / `[key]` (it could be changed)' % (self.rel, name))
             for ch in ast.iter_child_nodes(node):
@@ -1631,6 +1678,7 @@ class FnTranslator:
         self.attr_store_ok = tuple(sp.get('attr_stores', ()))
         self.tries = sp.get('tries')                 # [loop ties C15] see try_stmt
         self.row_filter = sp.get('row_filter')       # [loop ties C15] see block(), Return
+        self.columns = sp.get('columns')             # [loop ties C05] see expr(), ListComp / np.apply_along_axis
         for nm in self.attr_store_ok:
             for x in ast.walk(fnode):
                 if isinstance(x, ast.Assign) and isinstance(x.value, ast.Name) and (
